@@ -36,6 +36,14 @@ pub fn case(f: &F, x: &LN) -> Result<String, String> {
         if s != s2 {
             return Err(format!("format_narsese gives {s:?}, the per-kind formatter {s2:?}"));
         }
+        let s3 = match &x2 {
+            LN::Term(t) => f.l.format(t),
+            LN::Sentence(s) => f.l.format(s),
+            LN::Task(t) => f.l.format(t),
+        };
+        if s != s3 {
+            return Err(format!("format_narsese gives {s:?}, the FormatTo route {s3:?}"));
+        }
         match f.l.parse(&s) {
             Err(e) => Err(format!("parse of the formatted text {s:?} failed: {e}")),
             Ok(y) => {
